@@ -100,7 +100,39 @@ def rand_edit(rng, st, kinds=('mv', 'ma', 'md')):
     return ['md', {n: rng.choice(['s3cret', 'pw%d' % rng.randint(0, 99), 'set!'])}]
 
 
+def gen_e2e_push(rng):
+    """a permanently offline (webhook-only) slave: every edit is pending until the slave sends an event; provisioning is scheduled
+    1 s after each event.  One pending item (several are pushed more than once by the current code when the slave is slow: the
+    provisioning requests make the device send events that re-enter _provision_and_update, notes/C13.md), then two events within
+    a second from a slave that is slower than the gap"""
+    st = c12.SimState(rng, rng.randint(1, 3))
+    job = {'kind': 'e2e', 'mode': 'push', 'poll': 1, 'flags': ['listen'], 'lat': [rng.choice([300, 500, 800])],
+           'ports': [copy.deepcopy(p) for p in st.ports.values()], 'ops': []}
+    ops = job['ops']
+    e = None
+    for _ in range(10):
+        e = rand_edit(rng, st)
+        if e and (e[0] != 'ma' or len(e[2]) == 1) and not (e[0] == 'ma' and 'tag' in e[2]):
+            break
+    ops.append([1000] + (e or ['md', {'display_name': 'User Dev'}]))
+    ids = [i for i, p in st.ports.items() if p['enabled']]
+    if ids:
+        pid = rng.choice(ids)
+        typ = st.ports[pid]['type']
+        v1 = c12.rand_value(rng, typ)
+        ops.append([rng.choice([500, 2000]), 'sv', pid, (not st.ports[pid]['value']) if typ == 'boolean' else (st.ports[pid]['value'] + 1) % 100])
+        ops.append([rng.choice([100, 300, 600]), 'sd', 'display_name', 'D%d' % rng.randint(0, 99)] if e and e[0] != 'md'
+                   else [rng.choice([100, 300, 600]), 'sv', pid, (st.ports[pid]['value'] + 7) % 100 if typ != 'boolean' else st.ports[pid]['value']])
+    else:
+        ops.append([500, 'sd', 'location', 'X'])
+        ops.append([300, 'sd', 'location', 'Y'])
+    ops.append([0, 'sync'])
+    return job
+
+
 def gen_e2e(rng):
+    if rng.random() < 0.1:
+        return gen_e2e_push(rng)
     mode = rng.choice(['listen', 'listen', 'poll'])
     st = c12.SimState(rng, rng.randint(1, 3))
     job = {'kind': 'e2e', 'mode': mode, 'poll': rng.choice([1, 2, 3]),
